@@ -200,7 +200,7 @@ PROFILES = {
         phys_count=8, key_alphas=[0, 2], regress=["findings/C13-weak-pair-drain.replay.json"]),
     # C14 bulk ingestion
     "C14": tree_profile(
-        4, ["READ", "SCAN", "SNAPRES", "INVENT", "LOST", "OPFAIL"],
+        4, ["READ", "SCAN", "SCANX", "SNAPRES", "INVENT", "LOST", "OPFAIL"],
         c(Ops={"write", "rotate", "flush", "major", "snap", "ingest"}, MaxSeq=4, MaxSnaps=1, MaxHist=4,
           DestLevels={6}),
         [sim(40, 24, MaxSeq=18, MaxTables=5, MaxHist=20, MaxSnaps=2, MaxSealed=2,
@@ -209,7 +209,8 @@ PROFILES = {
         c(Ops=SNAP_OPS | {"ingest"}, MaxSeq=6, MaxSnaps=1, MaxHist=4, DestLevels={0, 6}),
         [sim(1000, 30, Keys={1, 2, 3}, MaxSeq=26, MaxTables=6, MaxHist=30, MaxSnaps=2, MaxSealed=2,
              Ops=SNAP_OPS | {"reopen", "ingest"}, WriteBias=4),
-         drv(300, 400, dict(DRIVE_SNAP_W, ingest=2.5))]),
+         drv(300, 400, dict(DRIVE_SNAP_W, ingest=2.5))],
+        scans={"prob": 0.35, "burst": 1}),
     # C15 drop_range and clear
     "C15": tree_profile(
         4, ["READ", "SCAN", "SNAPRES", "OPFAIL"],
